@@ -114,3 +114,45 @@ package dragonboat
 //@ trusted queues a snapshot task; sends no raft message
 //@ func resetNodeUpdate [C04]
 //@ trusted clears slices of the already processed updates
+
+// ---------------------------------------------------------------- the table of in-flight proposals (C12)
+// From the property: exactly one terminal result per request, never a result that belongs to
+// another request. The mechanism is take-and-delete: a request is notified only after it was
+// removed from the table under the lock, so whatever is still in the table has not been
+// notified by this operation and nothing can reach a removed request through the table again.
+//@ pred (p *proposalShard) wf() := p.pending != nil &&
+//@   (forall k uint64 :: k in p.pending ==> p.pending[k] != nil && p.pending[k].CompletedC != nil) &&
+//@   (forall k1 uint64, k2 uint64 :: k1 in p.pending && k2 in p.pending && k1 != k2 ==> p.pending[k1] != p.pending[k2] && p.pending[k1].CompletedC != p.pending[k2].CompletedC)
+
+//@ func (p *proposalShard) getTick [C12]
+//@ trusted reads the logical clock
+
+//@ func (p *proposalShard) takeProposal [C12]
+//@ requires p.wf() && held(p.mu) == 0
+//@ modifies held(p.mu), entries(p.pending)
+//@ ensures held(p.mu) == 0 && p.wf()
+//@ ensures result != nil ==> old(key in p.pending) && result == old(p.pending[key]) && result.clientID == clientID && result.seriesID == seriesID && result.deadline >= now && !p.stopped
+//@ ensures result != nil && remove ==> !(key in p.pending)
+//@ ensures forall k uint64 :: (k != key || !remove || result == nil) ==> (k in p.pending) == old(k in p.pending)
+//@ ensures forall k uint64 :: k in p.pending ==> old(k in p.pending) && p.pending[k] == old(p.pending[k])
+
+// a dropped proposal: only the request taken out of the table is notified
+//@ func (p *proposalShard) dropped [C12]
+//@ noframe
+//@ requires p.wf() && held(p.mu) == 0
+//@ modifies held(p.mu), entries(p.pending)
+//@ ensures forall k uint64 :: k in p.pending ==> old(k in p.pending) && p.pending[k] == old(p.pending[k]) && len(p.pending[k].CompletedC) == old(len(p.pending[k].CompletedC))
+//@ ensures old(key in p.pending && p.pending[key].clientID == clientID && p.pending[key].seriesID == seriesID && !p.stopped) && !(key in p.pending) ==> len(old(p.pending[key]).CompletedC) == old(len(p.pending[key].CompletedC)) + 1
+
+// expiry: every request that is timed out is removed in the same critical section
+//@ func (p *proposalShard) gcAt [C12]
+//@ noframe
+//@ requires p.wf() && held(p.mu) == 0
+//@ modifies held(p.mu), entries(p.pending), p.lastGcTime
+//@ ensures held(p.mu) == 0
+//@ ensures forall k uint64 :: k in p.pending ==> old(k in p.pending) && p.pending[k] == old(p.pending[k]) && len(p.pending[k].CompletedC) == old(len(p.pending[k].CompletedC))
+//@ ensures old(p.stopped) ==> (forall k uint64 :: (k in p.pending) == old(k in p.pending))
+//@ loop 1 modifies entries(p.pending)
+//@ loop 1 invariant p.pending != nil && held(p.mu) == 2
+//@ loop 1 invariant forall k uint64 :: k in p.pending ==> old(k in p.pending) && p.pending[k] == old(p.pending[k]) && len(p.pending[k].CompletedC) == old(len(p.pending[k].CompletedC))
+//@ loop 1 invariant forall k uint64 :: old(k in p.pending) && !(k in p.pending) ==> visited(k)
